@@ -29,9 +29,10 @@ class OptimizerRunCase(Case):
     family = "exit-code/optimizer-step"
 
     def __init__(self, cid, *, R=2, P=1, script, filt=None, estimator="mean", rmin=1, pmin=1, maxf=None, raise_at=None,
-                 allow_nan=False, C=0, transforms=None, redirect=False, exc_class=None):
+                 allow_nan=False, C=0, transforms=None, redirect=False, exc_class=None, nan_col=0):
         """script: list of (functions?, gradients?, point index)"""
         self.id = cid
+        self.nan_col = nan_col
         self.R, self.P, self.script, self.filt, self.estimator = R, P, script, filt, estimator
         self.rmin, self.pmin, self.maxf, self.raise_at, self.allow_nan, self.C = rmin, pmin, maxf, raise_at, allow_nan, C
         filters, obj_filt, con_filt = (), None, None
@@ -69,7 +70,7 @@ class OptimizerRunCase(Case):
 
     def describe(self):
         return (f"R={self.R} P={self.P} C={self.C} transforms={self.tname} script={self.script} filter={self.filt} estimator={self.estimator} rmin={self.rmin} "
-                f"pmin={self.pmin} max_functions={'symbolic' if self.maxf else None} evaluator_raises_at={self.raise_at} allow_nan={self.allow_nan}")
+                f"pmin={self.pmin} nan_column={self.nan_col} max_functions={'symbolic' if self.maxf else None} evaluator_raises_at={self.raise_at} allow_nan={self.allow_nan}")
 
     def inputs(self, env):
         flags = {}
@@ -88,7 +89,7 @@ class OptimizerRunCase(Case):
         if inp["maxf"] is not None:
             inject(cfg.optimizer, max_functions=env.num(inp["maxf"]))
         rec = Recorder()
-        ev = FlagEvaluator(env, inp["flags"], C=self.C, raise_at=self.raise_at, exc=self.exc_class)
+        ev = FlagEvaluator(env, inp["flags"], C=self.C, raise_at=self.raise_at, exc=self.exc_class, nan_col=self.nan_col)
         plan, _ = make_plan(ev, rec)
         if self.redirect:  # optimizer output redirected to files (stdout/stderr of the algorithm)
             import tempfile, pathlib
@@ -208,19 +209,20 @@ class OptimizerRunCase(Case):
 class EvaluatorStepCase(Case):
     family = "exit-code/evaluator-step"
 
-    def __init__(self, cid, *, R=2, filt=None, estimator="mean", rmin=1, B=1):
+    def __init__(self, cid, *, R=2, filt=None, estimator="mean", rmin=1, B=1, C=0, nan_col=0):
         self.id, self.R, self.filt, self.estimator, self.rmin, self.B = cid, R, filt, estimator, rmin, B
+        self.C, self.nan_col = C, nan_col
         filters, obj_filt = (), None
         if filt == "sort-objective":
             filters, obj_filt = (sort_filter(1, R - 1),), (0,)
         elif filt == "cvar-objective":
             filters, obj_filt = (cvar_filter(0.5),), (0,)
         self.first = 1 if filt and filt.startswith("sort") else None
-        self.cfg0 = ens.ensemble_config(N=2, R=R, P=1, rmin=rmin, estimators=(estimator,), filters=filters, obj_filt=obj_filt)
+        self.cfg0 = ens.ensemble_config(N=2, R=R, P=1, C=C, rmin=rmin, estimators=(estimator,), filters=filters, obj_filt=obj_filt)
         self.family = "exit-code/evaluator-step" + ("/" + filt if filt else "") + ("/stddev" if estimator == "stddev" else "")
 
     def describe(self):
-        return f"evaluator step R={self.R} filter={self.filt} estimator={self.estimator} rmin={self.rmin} batch={self.B}"
+        return f"evaluator step R={self.R} C={self.C} nan_column={self.nan_col} filter={self.filt} estimator={self.estimator} rmin={self.rmin} batch={self.B}"
 
     def inputs(self, env):
         if self.B > 1:  # one flag per (vector, realization)
@@ -230,7 +232,7 @@ class EvaluatorStepCase(Case):
     def run(self, env, inp):
         cfg = clone_config(self.cfg0)
         rec = Recorder()
-        ev = FlagEvaluator(env, inp["flags"])
+        ev = FlagEvaluator(env, inp["flags"], C=self.C, nan_col=self.nan_col)
         plan, _ = make_plan(ev, rec)
         step = plan.add_step("evaluator")
         x = np.array([0.25, -0.5]) if self.B == 1 else np.array([[0.25, -0.5], [0.5, 0.5]])
@@ -303,6 +305,14 @@ def build_cases(tier):
     add(EvaluatorStepCase, estimator="stddev", rmin=1)
     add(EvaluatorStepCase, estimator="stddev", rmin=0, R=3)
     add(EvaluatorStepCase, rmin=1, B=2)
+    # failures that show in one constraint column only; all realizations failing with more realizations than constraints
+    for rmin in (1, 2):
+        add(script=S1, rmin=rmin, C=2, nan_col=2)
+    add(script=S2, rmin=2, C=2, nan_col=1, P=2, pmin=2)
+    add(script=S1, rmin=0, C=2, R=3, allow_nan=True)
+    add(script=S2, rmin=0, C=3, R=2, nan_col=3)
+    add(EvaluatorStepCase, rmin=2, C=2, nan_col=2)
+    add(EvaluatorStepCase, rmin=0, C=2, R=3, nan_col=1)
     if tier == "thorough":
         for rmin in (0, 1, 2, 3):
             add(script=S1, rmin=rmin, R=3, P=2, pmin=2)
